@@ -8,7 +8,7 @@ import (
 
 func TestSim(t *testing.T) {
 	worlds := map[string]simrun.World{}
-	for _, p := range []string{"C01", "C02", "C03", "C04", "C05", "C06", "C07"} {
+	for _, p := range []string{"C01", "C02", "C03", "C04", "C05", "C06", "C07", "C14"} {
 		worlds[p] = World(p)
 	}
 	simrun.Main(t, worlds)
